@@ -67,6 +67,11 @@ CLAIMED = {
         text="TLC proves exclusion and progress on the abstract spec and, on RwMutexImpl, that every started operation is granted exactly once under all interleavings with done() (and that dropping the re-check inside the CAS loop loses a grant); recorded histories from the real mutex (1-4 threads starting/dropping/releasing, copied read wrappers, mutex destroyed early, hook delays between load and CAS) must be behaviours of RwAbs: grants in group order, writers alone, each access reading exactly the number of earlier writers, no owed grant at quiescence",
         note="sequential consistency; sampled schedules; read()/readwrite() called from one thread",
         design="5/C04"),
+    "C11": dict(
+        technique="TLA+ transcription BulkImpl of the chunking arithmetic (word width as a constant) and IndexQueueImpl model-checked by TLC; abstract spec BulkAbs with TLC trace validation of per-call histories (small shapes) and measured summaries (large shapes) from the real bulk",
+        text="TLC checks for every n <= 72 and 1-4 workers that the transcribed chunk computation terminates and partitions [0,n) exactly, and that narrow-word arithmetic (the pre-fix code) does not; the owner/thief protocol of the index queues is checked exhaustively; real bulk runs on two pools over boundary shapes, 5 shape types, throwing sets and shapes around 2^31/2^32 must satisfy BulkAbs: each index called exactly once with unchanged values, no call outside [0,n), exactly one completion after the last call returned, an error drawn from the thrown ones",
+        note="sequential consistency; indices above 2^26 verified by count and sum only; schedules sampled",
+        design="5/C11"),
 }
 
 NOT_YET = {}
